@@ -318,6 +318,33 @@ type world struct {
 	sender     *aggsender.AggSender
 	prover     *fakeProver
 	wantHeight uint64
+	syncer     *fakeSyncer
+	epochs     *fakeEpochs
+}
+
+// mutateRange changes the L2 data of the certificate's block range the way a reorg that replaces a transaction
+// does: the first bridge gets another amount and destination, the first claim another amount and metadata.
+func (w *world) mutateRange() {
+	if len(w.syncer.bridges) > 0 {
+		b := &w.syncer.bridges[0]
+		b.Amount = otherAmount(b.Amount, 0x0BADC0DE)
+		b.DestinationAddress = addr("dest-after-reorg")
+		b.TxHash = h("tx-after-reorg")
+	}
+	if len(w.syncer.claims) > 0 {
+		cl := &w.syncer.claims[0]
+		cl.Amount = otherAmount(cl.Amount, 0x0C0FFEE0)
+		cl.Metadata = append([]byte("after-reorg"), cl.Metadata...)
+		cl.TxHash = h("claimtx-after-reorg")
+	}
+}
+
+// otherAmount returns v, or v+1 when the amount already is v.
+func otherAmount(a *big.Int, v int64) *big.Int {
+	if a != nil && a.Cmp(big.NewInt(v)) == 0 {
+		return big.NewInt(v + 1)
+	}
+	return big.NewInt(v)
 }
 
 var worldSeq atomic.Int64
@@ -369,6 +396,7 @@ func newWorld(sp spec, withPrev bool) (*world, error) {
 	}
 
 	syncer := &fakeSyncer{}
+	w.syncer = syncer
 	blk := firstBlock
 	for i, e := range sp.Exits {
 		syncer.bridges = append(syncer.bridges, bridgesync.Bridge{
@@ -411,6 +439,7 @@ func newWorld(sp spec, withPrev bool) (*world, error) {
 	w.client = agglayergrpc.NewVerifAgglayerGRPCClient(
 		&aggkitgrpc.ClientConfig{RequestTimeout: cfgtypes.NewDuration(time.Minute)}, nil, nil, w.submission)
 	ep := &fakeEpochs{ch: make(chan types.EpochEvent, 1)}
+	w.epochs = ep
 	ep.ch <- types.EpochEvent{Epoch: 1}
 	cfg := config.Config{MaxRetriesStoreCertificate: 1}
 	w.sender = aggsender.NewVerifAggSender(logger, cfg, st, w.client, ep, w.flow, fakeChecker{}, l2NetworkID)
